@@ -6,11 +6,14 @@ import kernel
 
 COQ_PROPS = 'props/C05.v'
 PARTIAL = ('proved: Welch-Satterthwaite for any number of independent inputs (finite/infinite dof mixed) in classical form; the '
-           'all-infinite case; and for real results with DEPENDENT inputs (any number, any interleaving, no complex pairing): the '
-           'loop never reaches its assert-False path when every declared correlation joins two infinite-dof inputs or two members '
-           'of one ensemble, returns the LPU variance and 1/den with one term per independent input, per dependent input without '
-           'ensemble and per ensemble accumulator, and each accumulator holds exactly the total of its ensemble; complex pairs '
-           '(finish_complex) and Willink-Hall (complex results) are tied by correspondence and checked by the oracle only')
+           'all-infinite case; and for real results with DEPENDENT inputs (any number, any interleaving): the loop never reaches '
+           'its assert-False path when every declared correlation joins two infinite-dof inputs, two members of one ensemble or '
+           'the two components of one elementary complex number; it returns the LPU variance and 1/den with one term per '
+           'independent input, per dependent input without ensemble, per ensemble accumulator (each holding exactly the total of '
+           'its ensemble) and ONE term u_re^2 + 2 u_re r u_im + u_im^2 per adjacent (real, imaginary) pair of a dependent '
+           'elementary complex number (WSPairs.v; a result on one such pair alone has the pair\'s dof); complex numbers that are '
+           'ensemble members (multiple_ucomplex), independent complex inputs (known finding: two terms), partial use of a pair '
+           '(known finding) and Willink-Hall (complex results) are tied by correspondence and checked by the oracle only')
 ASSUMPTIONS = ['rounding not bounded by proof']
 TRUSTED = ['Coq Reals library']
 
